@@ -148,7 +148,7 @@ def degree_rule(ctx: Ctx, rule: str) -> None:
         f = prog.func(mod, name)
         it = analyse(f)
         for line, msg in it.findings:
-            # a clash of degrees is a contradiction; a statement the typing does not understand is not
+            # a clash of degrees between typed terms is a contradiction; a statement the typing does not understand is not
             clash = 'degrees differ' in msg or 'sum of terms of degrees' in msg
             ctx.add(rule, f'{name}:typing', False if clash else None, (f.file, line), f'homogeneity typing fails: {msg}' if clash else f'homogeneity typing: statement not in a form the typing understands: {msg}', detail=msg, positive=clash)
         want = (MU - 1) if scaled else sp.Integer(0)
@@ -157,7 +157,8 @@ def degree_rule(ctx: Ctx, rule: str) -> None:
         n_alone = n_member = 0
         for b in it.bindings[ret]:
             v = b.value
-            kind = 'alone' if any('alone' in x for x in b.loops) else 'member'
+            classes = it.loop_classes(b.loops)
+            kind = 'alone' if 'alone' in classes else 'member'
             if kind == 'alone':
                 n_alone += 1
             else:
@@ -166,8 +167,12 @@ def degree_rule(ctx: Ctx, rule: str) -> None:
                 deg = sp.Integer(0)
             elif v.kind == 'LogHom':
                 deg = v.deg
-            else:
+            elif v.kind == 'Hom':
                 ctx.add(rule, f'{name}:{kind}', False, (f.file, b.line), f'entry of {ret} is not a log-term: {v}', detail=b.text)
+                continue
+            else:
+                # built from a name or a call the typing has no definition for: no degree, no accusation
+                ctx.add(rule, f'{name}:{kind}', None, (f.file, b.line), f'entry of {ret} not in a form the typing understands (it involves a name or a call whose value the typing does not know)', detail=b.text)
                 continue
             ok = sp.simplify(deg - want) == 0
             ctx.add(rule, f'{name}:{kind}', ok, (f.file, b.line),
@@ -175,107 +180,255 @@ def degree_rule(ctx: Ctx, rule: str) -> None:
                     + ('' if ok else f'; shift invariance needs degree {want} for every alternative'),
                     detail=f'{kind}:{sp.simplify(deg)}', positive=True)
             # multiplicity: the entry is written once per alternative
-            good_loops = b.loops in (('nests.alone',),) if kind == 'alone' else (len(b.loops) in (1, 2) and not any('alone' in x for x in b.loops))
-            ctx.add(rule, f'{name}:{kind}:loops', good_loops, (f.file, b.line), f'entry written under loops {b.loops}' + ('' if good_loops else ' - unexpected nesting'), detail=str(b.loops))
+            if kind == 'alone':
+                good_loops = classes == ('alone',)
+            else:
+                good_loops = classes in (('nests', 'members'), ('entries',), ('members',))
+            if good_loops:
+                verdict, pos = True, False
+            elif 'unknown' in classes or not b.accumulates:
+                # an iterable the rule cannot classify, or a key assigned again with the same value: nothing contradicts the property
+                verdict, pos = None, False
+            else:
+                verdict, pos = False, True
+            ctx.add(rule, f'{name}:{kind}:loops', verdict, (f.file, b.line), f'entry written under loops {b.loops}' + ('' if good_loops else (
+                ' - accumulated under a loop nest that does not give one contribution per alternative' if pos else ' - loop nest not in the expected form')), detail=str(b.loops), positive=pos)
         if n_alone == 0 or n_member == 0:
             raise AnalysisError(f'{rule}: {name}: entries for alone alternatives ({n_alone}) or nest members ({n_member}) not found')
 
 
+KNOWN_CALLS = {'exp', 'log', 'logzero', 'Numeric', 'ConditionalTermTuple', 'bioMultSum', 'ConditionalSum'}
+
+
+def _mult_factors(e: ast.expr | None) -> list[ast.expr]:
+    out: list[ast.expr] = []
+
+    def go(x):
+        if isinstance(x, ast.BinOp) and isinstance(x.op, ast.Mult):
+            go(x.left)
+            go(x.right)
+        else:
+            out.append(x)
+
+    if e is not None:
+        go(e)
+    return out
+
+
+def _is_zero(e: ast.expr) -> bool:
+    if isinstance(e, ast.Call) and call_name(e) == 'Numeric' and len(e.args) == 1 and not e.keywords:
+        e = e.args[0]
+    return isinstance(e, ast.Constant) and isinstance(e.value, (int, float)) and not isinstance(e.value, bool) and e.value == 0
+
+
+class _Term:
+    """an element of a nest sum with what it stands for made visible: single-definition locals replaced by their definition,
+    `d[k]` of a dictionary built once by `{i: e(i) for i in ...}` replaced by e(k), a call of a one-expression helper of the
+    module replaced by its body.  `opaque`: something in it could not be looked through (an element of another container,
+    a call of an unknown function, a local with several definitions) - nothing can then be said about what it does not contain."""
+
+    def __init__(self, f, it, e: ast.expr, ut: str, av: str, bound: set[str]):
+        import copy
+
+        from ..core import inline_locals
+
+        fnode = f.node
+        assigned: dict[str, list[ast.AST]] = {}
+        for n in walk_no_nested(fnode):
+            if isinstance(n, ast.Assign):
+                for t in n.targets:
+                    for x in ast.walk(t):
+                        if isinstance(x, ast.Name) and isinstance(x.ctx, ast.Store):
+                            assigned.setdefault(x.id, []).append(n)
+            elif isinstance(n, (ast.AugAssign, ast.AnnAssign)) and isinstance(n.target, ast.Name):
+                assigned.setdefault(n.target.id, []).append(n)
+
+        def keyed_by_its_variable(v):
+            return isinstance(v, ast.DictComp) and len(v.generators) == 1 and not v.generators[0].ifs and isinstance(v.generators[0].target, ast.Name) \
+                and isinstance(v.key, ast.Name) and v.key.id == v.generators[0].target.id
+
+        def dict_def(name: str):
+            ds = assigned.get(name, [])
+            if len(ds) != 1 or not isinstance(ds[0], (ast.Assign, ast.AnnAssign)):
+                return None
+            v = ds[0].value
+            return v if keyed_by_its_variable(v) else None
+
+        class Look(ast.NodeTransformer):
+            def __init__(self, depth):
+                self.depth = depth
+
+            def visit_Subscript(self, node):
+                if self.depth > 0 and (isinstance(node.value, ast.DictComp) or (isinstance(node.value, ast.Name) and node.value.id not in (ut, av))):
+                    d = dict_def(node.value.id) if isinstance(node.value, ast.Name) else (node.value if keyed_by_its_variable(node.value) else None)
+                    if d is not None:
+                        var = d.generators[0].target.id
+                        key = node.slice
+
+                        class Put(ast.NodeTransformer):
+                            def visit_Name(self, nn):
+                                return copy.deepcopy(key) if nn.id == var and isinstance(nn.ctx, ast.Load) else nn
+
+                        return Look(self.depth - 1).visit(inline_locals(fnode, Put().visit(copy.deepcopy(d.value))))
+                return self.generic_visit(node)
+
+            def visit_Call(self, node):
+                if self.depth > 0:
+                    body = it._helper_body(node)
+                    if body is not None:
+                        return Look(self.depth - 1).visit(body)
+                return self.generic_visit(node)
+
+        try:
+            self.expr = Look(4).visit(inline_locals(fnode, e))
+        except Exception:  # noqa
+            self.expr = e
+        self.opaque = False
+        self.util_idx: set[str] = set()
+        self.av_idx: set[str] = set()
+        self.plain_idx = True
+        for x in ast.walk(self.expr):
+            if isinstance(x, ast.Subscript):
+                if isinstance(x.value, ast.Name) and x.value.id in (ut, av):
+                    (self.util_idx if x.value.id == ut else self.av_idx).add(unparse(x.slice))
+                    if not isinstance(x.slice, (ast.Name, ast.Constant)):
+                        self.plain_idx = False
+                elif not isinstance(x.value, ast.Attribute):
+                    self.opaque = True
+            elif isinstance(x, ast.Call):
+                if call_name(x) not in KNOWN_CALLS:
+                    self.opaque = True
+            elif isinstance(x, ast.Name) and isinstance(x.ctx, ast.Load):
+                if x.id in assigned and x.id not in bound:
+                    self.opaque = True
+                if x.id in (ut, av):
+                    pass
+            elif isinstance(x, (ast.Lambda, ast.ListComp, ast.DictComp, ast.SetComp, ast.GeneratorExp, ast.IfExp, ast.Starred)):
+                self.opaque = True
+        # the dictionaries themselves passed somewhere (not subscripted) make the element opaque
+        subs = {id(x.value) for x in ast.walk(self.expr) if isinstance(x, ast.Subscript)}
+        if any(isinstance(x, ast.Name) and x.id in (ut, av) and id(x) not in subs for x in ast.walk(self.expr)):
+            self.opaque = True
+
+
+def _symbolic_difference(a, b):
+    """True: the two sympy terms differ (confirmed numerically), False: they are equal, None: cannot tell"""
+    from ..degree import terms_equal
+
+    r = terms_equal(a, b)
+    return None if r is None else (not r)
+
+
 def availability_rule(ctx: Ctx, rule: str) -> None:
     """inside every nest sum each term of alternative i is guarded by availability[i] of the same i"""
+    from ..degree import A, iterated, none_test
+
     prog = ctx.prog
     for mod, name, _ in BUILDERS + [(NESTED, 'get_mev_generating_for_nested', False)]:
         f = prog.func(mod, name)
         av = f.positional_params()[1]
         ut = f.positional_params()[0]
-        ifs = [n for n in walk_no_nested(f.node) if isinstance(n, ast.If) and unparse(n.test) in (f'{av} is None', f'{av} is not None')]
+        it = analyse(f)
+        ifs = [(n, none_test(n.test)) for n in walk_no_nested(f.node) if isinstance(n, ast.If) and (none_test(n.test) or ('', False))[0] == av]
         if not ifs:
             raise AnalysisError(f'{rule}: {name}: no branch on `{av} is None`')
-        for n in ifs:
-            none_branch, av_branch = (n.body, n.orelse) if unparse(n.test) == f'{av} is None' else (n.orelse, n.body)
+
+        def target_names(comp):
+            tg = comp.generators[0].target
+            return [t.id for t in (tg.elts if isinstance(tg, ast.Tuple) else [tg]) if isinstance(t, ast.Name)]
+
+        def loop_vars():
+            return {x.id for n_ in walk_no_nested(f.node) if isinstance(n_, (ast.For, ast.comprehension)) for x in ast.walk(n_.target) if isinstance(x, ast.Name)}
+
+        for n, (_, is_none) in ifs:
+            none_branch, av_branch = (n.body, n.orelse) if is_none else (n.orelse, n.body)
             comps = [c for st in av_branch for c in ast.walk(st) if isinstance(c, ast.ListComp)]
             if not comps:
                 ctx.add(rule, f'{name}:availability', False, (f.file, n.lineno), 'no sum over alternatives in the availability branch', 'none')
                 continue
+            bound = loop_vars()
             for c in comps:
-                g = c.generators[0]
-                idx = unparse(g.target.elts[0]) if isinstance(g.target, ast.Tuple) else unparse(g.target)
+                names = target_names(c)
+                idx = names[0] if names else unparse(c.generators[0].target)
                 elt = c.elt
+                T = _Term(f, it, elt, ut, av, bound)
+                top = T.expr
                 guarded = False
-                uses_util = f'{ut}[{idx}]' in unparse(elt)
-                if isinstance(elt, ast.Call) and call_name(elt) == 'ConditionalTermTuple':
-                    cond = next((k.value for k in elt.keywords if k.arg == 'condition'), elt.args[0] if elt.args else None)
-                    ct = unparse(cond).replace(' ', '') if cond is not None else ''
-                    guarded = bool(re.fullmatch(rf'{re.escape(av)}\[{re.escape(idx)}\]!=(Numeric\(0(\.0)?\)|0(\.0)?)', ct))
+                if isinstance(top, ast.Call) and call_name(top) == 'ConditionalTermTuple':
+                    cond = next((k.value for k in top.keywords if k.arg == 'condition'), top.args[0] if top.args else None)
+                    if isinstance(cond, ast.Compare) and len(cond.ops) == 1 and isinstance(cond.ops[0], ast.NotEq):
+                        l_, r_ = cond.left, cond.comparators[0]
+                        if _is_zero(l_):
+                            l_, r_ = r_, l_
+                        guarded = unparse(l_) == f'{av}[{idx}]' and _is_zero(r_)
                 else:
                     # multiplicative factor availability[i]
-                    factors = []
-
-                    def flat(e):
-                        if isinstance(e, ast.BinOp) and isinstance(e.op, ast.Mult):
-                            flat(e.left)
-                            flat(e.right)
-                        else:
-                            factors.append(unparse(e))
-
-                    flat(elt)
-                    guarded = f'{av}[{idx}]' in factors
-                ctx.add(rule, f'{name}:availability', guarded and uses_util, (f.file, c.lineno),
-                        f'each term of the nest sum is conditioned on {av}[{idx}] of the same alternative' if guarded and uses_util
-                        else f'term of the nest sum is not conditioned on {av}[{idx}]: {unparse(elt)[:90]}', detail=unparse(elt), positive=True)
+                    guarded = f'{av}[{idx}]' in [unparse(x) for x in _mult_factors(top)]
+                uses_util = T.util_idx == {idx}
+                ok = guarded and uses_util
+                positive = False
+                if ok:
+                    msg = f'each term of the nest sum is conditioned on {av}[{idx}] of the same alternative'
+                elif T.opaque or len(c.generators) != 1 or c.generators[0].ifs:
+                    ok = None
+                    msg = f'term of the nest sum not in a form the rule understands: {unparse(elt)[:90]}'
+                elif not T.av_idx:
+                    positive = True
+                    msg = f'term of the nest sum is not conditioned on {av}[{idx}] ({av} does not appear in it): {unparse(elt)[:90]}'
+                elif T.util_idx and T.plain_idx and T.av_idx.isdisjoint(T.util_idx):
+                    positive = True
+                    msg = f'term of the nest sum for the utility of {sorted(T.util_idx)} is conditioned on the availability of {sorted(T.av_idx)}, another alternative: {unparse(elt)[:90]}'
+                else:
+                    ok = None
+                    msg = f'the way the term of the nest sum is conditioned on {av}[{idx}] is not in the expected form: {unparse(elt)[:90]}'
+                ctx.add(rule, f'{name}:availability', ok, (f.file, c.lineno), msg, detail=unparse(elt), positive=positive)
             # sibling: apart from the guard the two branches sum the same term
             ncomps = [c for st in none_branch for c in ast.walk(st) if isinstance(c, ast.ListComp)]
             if len(ncomps) != len(comps):
                 ctx.add(rule, f'{name}:branches', False, (f.file, n.lineno), f'the branch without availabilities builds {len(ncomps)} sum(s), the other {len(comps)}', 'count')
+                continue
             for cn, ca in zip(ncomps, comps):
-                elt = ca.elt
+                Ta, Tn = _Term(f, it, ca.elt, ut, av, bound), _Term(f, it, cn.elt, ut, av, bound)
+                elt = Ta.expr
+                ia = (target_names(ca) or [unparse(ca.generators[0].target)])[0]
                 if isinstance(elt, ast.Call) and call_name(elt) == 'ConditionalTermTuple':
                     bare = next((k.value for k in elt.keywords if k.arg == 'term'), elt.args[1] if len(elt.args) > 1 else None)
                 else:
-                    fac = []
-
-                    def flat2(e):
-                        if isinstance(e, ast.BinOp) and isinstance(e.op, ast.Mult):
-                            flat2(e.left)
-                            flat2(e.right)
-                        else:
-                            fac.append(e)
-
-                    flat2(elt)
-                    ia = unparse(ca.generators[0].target.elts[0]) if isinstance(ca.generators[0].target, ast.Tuple) else unparse(ca.generators[0].target)
-                    rest = [x for x in fac if unparse(x) != f'{av}[{ia}]']
+                    rest = [x for x in _mult_factors(elt) if unparse(x) != f'{av}[{ia}]']
                     bare = None
                     for x in rest:
                         bare = x if bare is None else ast.BinOp(left=bare, op=ast.Mult(), right=x)
 
                 def canon(e, comp):
                     # comprehension variables by position, so that the two branches may name them differently
-                    tg = comp.generators[0].target
-                    names = [t.id for t in (tg.elts if isinstance(tg, ast.Tuple) else [tg]) if isinstance(t, ast.Name)]
                     txt = ast.dump(e) if e is not None else ''
-                    for k, nm in enumerate(names):
+                    for k, nm in enumerate(target_names(comp)):
                         txt = txt.replace(f"Name(id='{nm}'", f"Name(id='$v{k}'")
                     return txt
 
-                def factors_of(e):
-                    out = []
-
-                    def go(x):
-                        if isinstance(x, ast.BinOp) and isinstance(x.op, ast.Mult):
-                            go(x.left)
-                            go(x.right)
-                        else:
-                            out.append(x)
-
-                    if e is not None:
-                        go(e)
-                    return out
-
-                same = sorted(canon(x, ca) for x in factors_of(bare)) == sorted(canon(x, cn) for x in factors_of(cn.elt)) and unparse(ca.generators[0].iter) == unparse(cn.generators[0].iter)
-                ctx.add(rule, f'{name}:branches', same, (f.file, cn.lineno),
-                        'with and without availabilities the nest sum has the same term over the same alternatives' if same
-                        else f'the nest sum without availabilities has the term {unparse(cn.elt)[:80]}, with availabilities {unparse(bare)[:80] if bare is not None else "?"}: the model changes when availabilities all equal to 1 are passed',
-                        detail='' if same else unparse(cn.elt), positive=True)
+                same_iter = it._loop_name(ca.generators[0].iter) == it._loop_name(cn.generators[0].iter)
+                same = sorted(canon(x, ca) for x in _mult_factors(bare)) == sorted(canon(x, cn) for x in _mult_factors(Tn.expr)) and same_iter
+                positive = False
+                verdict: bool | None = same
+                if not same:
+                    # decided on the typed terms: the term with availabilities, at availability = 1, against the term without
+                    va = it.comp_values.get(id(ca), it.comp_values.get((ca.lineno, ca.col_offset, unparse(ca))))
+                    vn = it.comp_values.get(id(cn), it.comp_values.get((cn.lineno, cn.col_offset, unparse(cn))))
+                    diff = None
+                    if va is not None and vn is not None and va.kind in ('Const', 'Hom', 'LogHom') and vn.kind in ('Const', 'Hom', 'LogHom') and va.term is not None and vn.term is not None \
+                            and not Ta.opaque and not Tn.opaque:
+                        diff = _symbolic_difference(va.term.subs(A, 1), vn.term)
+                    if diff is True:
+                        verdict, positive = False, True
+                    elif diff is False and same_iter and Ta.util_idx == {ia} and Tn.util_idx == {(target_names(cn) or ['?'])[0]}:
+                        verdict = True
+                    else:
+                        verdict = None
+                ctx.add(rule, f'{name}:branches', verdict, (f.file, cn.lineno),
+                        'with and without availabilities the nest sum has the same term over the same alternatives' if verdict
+                        else (f'the nest sum without availabilities has the term {unparse(cn.elt)[:80]}, with availabilities {unparse(bare)[:80] if bare is not None else "?"}: the model changes when availabilities all equal to 1 are passed'
+                              if positive else f'the two branches on {av} are not in a form the rule can compare: {unparse(cn.elt)[:80]} / {unparse(bare)[:80] if bare is not None else "?"}'),
+                        detail='' if verdict else unparse(cn.elt), positive=positive)
             for st in none_branch:
                 if av in {x.id for x in ast.walk(st) if isinstance(x, ast.Name)}:
                     ctx.add(rule, f'{name}:availability:none', False, (f.file, st.lineno), f'{av} is used although it is None', unparse(st)[:80])
@@ -322,38 +475,92 @@ def ordered_rule(ctx: Ctx, rule: str) -> None:
     item = unparse(loop.target)
     ok_iter = unparse(loop.iter) == f'{vals}[1:-1]'
     ctx.add(rule, 'ordered_likelihood:range', ok_iter, (f.file, loop.lineno), f'loop over {unparse(loop.iter)}' + ('' if ok_iter else f'; the intermediate categories are {vals}[1:-1]'), unparse(loop.iter))
-    # statements of the loop
+    # statements of the loop, executed symbolically: every local assigned in the body is replaced by its value in terms of the
+    # values at the entry of the iteration (so `lower = tau; upper = tau + d[item]; P[item] = F(x - lower) - F(x - upper)` and
+    # `nxt = tau + d[item]; P[item] = F(x - tau) - F(x - nxt)` are the same statement)
+    import copy
+
     body = loop.body
-    assigns = {unparse(s.targets[0]): s for s in body if isinstance(s, ast.Assign)}
-    proba = next((k for k in assigns if k.endswith(f'[{item}]')), None)
-    ctx.need(proba is not None, 'ordered_likelihood stores the probability of the current item')
-    pname = proba.split('[')[0]
-    pv = assigns[proba].value
+    state: dict[str, ast.expr] = {}
+    stores: list[tuple[ast.Subscript, ast.expr, ast.stmt]] = []
+    straight = True
+
+    def subst(e: ast.expr) -> ast.expr:
+        class S(ast.NodeTransformer):
+            def visit_Name(self, nn):
+                return copy.deepcopy(state[nn.id]) if isinstance(nn.ctx, ast.Load) and nn.id in state else nn
+
+        return S().visit(copy.deepcopy(e))
+
+    last_def: dict[str, ast.stmt] = {}
+    for st in body:
+        if isinstance(st, ast.Assign) and len(st.targets) == 1 and isinstance(st.targets[0], ast.Name):
+            state[st.targets[0].id] = subst(st.value)
+            last_def[st.targets[0].id] = st
+        elif isinstance(st, ast.AnnAssign) and isinstance(st.target, ast.Name) and st.value is not None:
+            state[st.target.id] = subst(st.value)
+            last_def[st.target.id] = st
+        elif isinstance(st, ast.Assign) and len(st.targets) == 1 and isinstance(st.targets[0], ast.Subscript):
+            stores.append((st.targets[0], subst(st.value), st))
+        elif isinstance(st, ast.Expr) and isinstance(st.value, ast.Constant):
+            continue
+        else:
+            straight = False
+    assigned_in_loop = set(state) | {x.id for x in ast.walk(loop.target) if isinstance(x, ast.Name)}
+    pst = next((t for t in stores if isinstance(t[0].value, ast.Name) and unparse(t[0].slice) == item), None)
+    ctx.need(pst is not None, 'ordered_likelihood stores the probability of the current item')
+    pname = pst[0].value.id
+    pv = pst[1]
+    pstmt = pst[2]
     ok = False
-    carried = nxt = None
-    det = unparse(pv)
-    if isinstance(pv, ast.BinOp) and isinstance(pv.op, ast.Sub):
-        m1 = re.fullmatch(rf'{cdf}\({x} - (\w+)\)', unparse(pv.left))
-        m2 = re.fullmatch(rf'{cdf}\({x} - (\w+)\)', unparse(pv.right))
-        if m1 and m2:
-            carried, nxt = m1.group(1), m2.group(1)
+    carried = nxt_text = None
+    T = N = None
+    det = unparse(pstmt.value)
+
+    def threshold_of(c: ast.expr) -> ast.expr | None:
+        """t of `cdf(x - t)`"""
+        if isinstance(c, ast.Call) and isinstance(c.func, ast.Name) and c.func.id == cdf and len(c.args) == 1 and not c.keywords \
+                and isinstance(c.args[0], ast.BinOp) and isinstance(c.args[0].op, ast.Sub) and unparse(c.args[0].left) == x:
+            return c.args[0].right
+        return None
+
+    if straight and isinstance(pv, ast.BinOp) and isinstance(pv.op, ast.Sub):
+        T, N = threshold_of(pv.left), threshold_of(pv.right)
+        if T is not None and N is not None and isinstance(T, ast.Name):
+            carried, nxt_text = T.id, unparse(N)
             ok = True
-    ctx.add(rule, 'ordered_likelihood:middle', ok, (f.file, assigns[proba].lineno), f'P(item) = {det}' + ('' if ok else f'; expected {cdf}({x} - tau) - {cdf}({x} - next_tau)'), det)
+    ctx.add(rule, 'ordered_likelihood:middle', ok, (f.file, pstmt.lineno), f'P(item) = {det}' + ('' if ok else f'; expected {cdf}({x} - tau) - {cdf}({x} - next_tau)'), det)
     if ok:
-        # next_tau = tau + diffs[item], defined before the probability; tau = next_tau after it
-        nd = assigns.get(nxt)
-        okn = nd is not None and seq(nd) < seq(assigns[proba]) and isinstance(nd.value, ast.BinOp) and isinstance(nd.value.op, ast.Add) and unparse(nd.value.left) == carried
-        diffs = unparse(nd.value.right).split('[')[0] if okn else None
-        okn = okn and unparse(nd.value.right) == f'{diffs}[{item}]'
-        other = nd is not None and isinstance(nd.value, ast.BinOp) and isinstance(nd.value.op, ast.Add) and isinstance(nd.value.left, ast.Name) and unparse(nd.value.left) != carried \
-            and re.fullmatch(rf'\w+\[{re.escape(item)}\]', unparse(nd.value.right)) is not None
-        ctx.add(rule, 'ordered_likelihood:next', okn if (okn or other) else None, (f.file, nd.lineno if nd is not None else loop.lineno),
-                f'{nxt} = {carried} + {diffs}[{item}]' if okn else (f'{nxt} = {unparse(nd.value)}; the next threshold must be the current one ({carried}) plus a non-negative increment: with more than three categories the '
-                                                                   'thresholds are otherwise not increasing and the probabilities do not sum to one' if other else f'the way {nxt} is computed is not in the expected form ({carried} + increment of the item)'),
-                unparse(nd.value) if nd is not None else 'missing', positive=bool(other))
-        upd = assigns.get(carried)
-        oku = upd is not None and unparse(upd.value) == nxt and seq(upd) > seq(assigns[proba])
-        ctx.add(rule, 'ordered_likelihood:carry', oku, (f.file, upd.lineno if upd is not None else loop.lineno), f'{carried} = {nxt} after the probability is stored' if oku else f'the threshold {carried} is not advanced to {nxt} after use', unparse(upd) if upd is not None else 'missing')
+        # next_tau = tau + diffs[item]; tau = next_tau after the probability is stored
+        def increment(e: ast.expr) -> str | None:
+            """d of `d[item]`"""
+            if isinstance(e, ast.Subscript) and isinstance(e.value, ast.Name) and unparse(e.slice) == item:
+                return e.value.id
+            return None
+
+        okn = False
+        other = False
+        diffs = None
+        base = None
+        if isinstance(N, ast.BinOp) and isinstance(N.op, ast.Add):
+            for b_, d_ in ((N.left, N.right), (N.right, N.left)):
+                if increment(d_) is not None and increment(b_) is None:
+                    base, diffs = b_, increment(d_)
+            if base is not None:
+                okn = isinstance(base, ast.Name) and base.id == carried
+                # the base is a name that no statement of the loop assigns: it does not advance from one category to the next
+                other = not okn and isinstance(base, ast.Name) and base.id not in assigned_in_loop
+        nline = pstmt.lineno
+        for nm, stn in last_def.items():
+            if nm != carried and ast.dump(state[nm]) == ast.dump(N):
+                nline = stn.lineno
+        ctx.add(rule, 'ordered_likelihood:next', okn if (okn or other) else None, (f.file, nline),
+                f'next threshold = {carried} + {diffs}[{item}]' if okn else (f'next threshold = {nxt_text}; the next threshold must be the current one ({carried}) plus a non-negative increment: {unparse(base)} is not advanced by the loop, so with more than '
+                                                                       'three categories the thresholds are not increasing and the probabilities do not sum to one' if other else f'the way the next threshold ({nxt_text}) is computed is not in the expected form ({carried} + increment of the item)'),
+                nxt_text, positive=bool(other))
+        upd = last_def.get(carried)
+        oku = upd is not None and ast.dump(state[carried]) == ast.dump(N) and seq(upd) > seq(pstmt)
+        ctx.add(rule, 'ordered_likelihood:carry', oku, (f.file, upd.lineno if upd is not None else loop.lineno), f'{carried} = next threshold after the probability is stored' if oku else f'the threshold {carried} is not advanced to {nxt_text} after use', unparse(upd) if upd is not None else 'missing')
         # initialisation and ends
         init = [s for s in src if isinstance(s, ast.Assign) and unparse(s.targets[0]) == carried and seq(s) < seq(loop)]
         oki = len(init) == 1 and unparse(init[0].value) == tau0
@@ -401,7 +608,6 @@ def ordered_rule(ctx: Ctx, rule: str) -> None:
 POSITIVE: list[tuple[str, str, str]] = [
     ('C05.R6', r':record$', 'the record template interpreted from get_signature is not the one the engine parses for this tag'),
     ('C05.R6', r'\.get_signature$', 'an id written in the record belongs to a node whose signature is not emitted before it'),
-    ('C05.R2', r':(alone|member):loops$', 'an entry of ln G_i is written under a loop nest that does not give one entry per alternative'),
     ('C05.R4', r':(unavailable|chosen-availability|denominator)$', 'LogLogit.get_value matched with holes'),
 ]
 
